@@ -94,7 +94,7 @@ chk("C13", "translation_validation", "exhaustive differential execution of the r
 
 chk("C14", "exploration", "explicit-state BFS over API call sequences of the real driver against datasheet chip models, with deviation-bounded fault and drop injection",
     "The real LoRa<Sx126x>/LoRa<Sx127x> drivers (and the LoRaWAN radio adapter) run against behavioural chip models (command/register decode, operating mode, BUSY high while asleep, configuration lost on cold sleep and reset, latched interrupt flags, operations in flight until the interrupt wait). BFS over sequences of {init, sleep warm/cold, prepare_for_tx, tx, prepare_for_rx single/continuous/duty, start_rx, complete_rx, rx_switch_channel, listen, prepare_for_cad, cad, set_lora_sync_word, time passing} x chip outcome {done, timeout, CRC error, header error, nothing} x {0,1} spurious interrupt wake-ups; with deviations additionally a one-shot fault at every SPI/BUSY/IRQ/RF-switch/reset position the call consumes and a drop at every position the future can be parked on. After every call: no panic / endless wait, no command to a sleeping chip, nothing started unconfigured, a refusal consumed no environment call, no start without a matching preparation, driver belief (cfg-guarded accessors) compatible with the chip mode, after a failed or timed-out TX/RX/CAD the chip is inactive and the driver believes Standby.",
-    "Trusted: the chip models in chips.rs (datasheet transcription; RX duty-cycle sleep phase not modelled). One known finding (SX127x interrupted reset sequence) is listed in known_findings.json.",
+    "Trusted: the chip models in chips.rs (datasheet transcription; RX duty-cycle sleep phase not modelled). The former known finding (SX127x interrupted reset sequence) is repaired (fix d99d9dd, recorded as fixed in known_findings.json).",
     "DESIGN.md §3 C14")
 
 chk("C17", "exploration", "exhaustive input sweeps through the real drivers, SPI writes decoded with datasheet formulas",
